@@ -18,8 +18,8 @@ RULE = ('recordings of length 1..L (incl. shorter than the window) x 1..4 channe
 ASSUMPTIONS = ['.npy byte layout and np.load are transport', 'factor multiplication is exact on the generated values']
 
 
-def _A(dur, nch, dtype):
-    return (np.arange(dur * nch).reshape((dur, nch)) + 1).astype(dtype)
+def _A(dur, nch, dtype, bias=0):
+    return (np.arange(dur * nch).reshape((dur, nch)) + 1 + bias).astype(dtype)
 
 
 def window(ids, s, n, ch):
@@ -73,7 +73,7 @@ def impl(case):
                 m.close()
         return res
     dur, nch, n = case['dur'], case['nch'], case['n']
-    A = _A(dur, nch, case['dtype'])
+    A = _A(dur, nch, case['dtype'], case.get('bias', 0))
     spikes = np.array(case['spikes'], dtype=case.get('sdtype', 'int64'))
     with C.scratch_dir() as d:
         rd = None
@@ -142,6 +142,20 @@ def oracle(case):
         return [window(raw, spec['spike_samples'][i], n, case['ch']).tolist() for i in case['spike_ids']]
     ids = _A(case['dur'], case['nch'], 'int64')
     n = case['n']
+    bias = case.get('bias', 0)
+    if bias and op in ('export', 'lookup'):
+        # values = id + bias on real cells, 0 on padding; times the factor in exact (float64) arithmetic
+        def val(w):
+            w = np.asarray(w, dtype=np.float64)
+            return np.where(w > 0, w + bias, 0.) * case['factor']
+        if op == 'export':
+            return [val(window(ids, s, n, ch)).tolist() for s, ch in zip(case['spikes'], case['chans'])]
+        out = []
+        for qid in case['query']:
+            p = case['ids'].index(qid)
+            ch = [c if c in case['chans'][p] else -1 for c in case['chq']]
+            out.append(val(window(ids, case['spikes'][p], n, ch)).tolist())
+        return out
     if op == 'extract':
         return [window(ids, s, n, case['ch']).tolist() for s in case['spikes']]
     if op == 'export':
@@ -165,7 +179,7 @@ def judge(case, impl_res, ans):
         return 'MACHINERY: Lean model raises on an in-domain case'
     if m['model'] != m['spec']:
         return 'MACHINERY: Lean model differs from its spec (contradicts the theorem)'
-    if (np.array(m['spec']) * f).tolist() != np.array(exp).tolist() and len(exp):
+    if not case.get('bias') and (np.array(m['spec']) * f).tolist() != np.array(exp).tolist() and len(exp):
         return 'MACHINERY: Lean spec differs from the python oracle'
     if 'raised' in impl_res:
         return 'SPEC: real code raised %s (%s) at %s on an in-domain input' % (
@@ -216,7 +230,7 @@ def classify(case, impl_res, ans, why):
                  short=case['n'] > case['dur'] if 'dur' in case else None,
                  both_edges=any(s < case['n'] // 2 and s + case['n'] - case['n'] // 2 > case['dur'] for s in case['spikes']))
         if case['op'] in ('export', 'lookup'):
-            d.update(dtype=case['dtype'], factor_type=type(case['factor']).__name__)
+            d.update(dtype=case['dtype'], factor_type=type(case['factor']).__name__, bias=bool(case.get('bias')))
     return d
 
 
@@ -243,7 +257,7 @@ def shrink(case):
         c = dict(case); c['sdtype'] = 'int64'; yield c
     if case['backend'] not in ('array', 'ndarray'):
         c = dict(case); c['backend'] = 'array'; yield c
-    if case['dtype'] != 'int16':
+    if case['dtype'] != 'int16' and not case.get('bias'):
         c = dict(case); c['dtype'] = 'int16'; yield c
     if case['op'] != 'extract' and case['factor'] != 1:
         c = dict(case); c['factor'] = 1; yield c
@@ -320,6 +334,10 @@ def gen(tier, rng):
                  nloc=nloc, sdtype=sdts[k % 4], dtype=dtype, factor=[1, 2, 1.0, 0.5, 2.5][k % 5],
                  chkind=['array', 'list'][(k // 2) % 2])
         c.update(be)
+        if dtype == 'int16' and k % 4 == 0:
+            c['bias'] = 20000        # products with an int factor exceed the int16 range
+        if dtype == 'float32' and k % 4 == 1:
+            c['bias'] = 16777000     # near 2**24: a float32 product would round
         if c['op'] == 'lookup':
             c['ids'] = sorted(rng.sample(range(200), ns))
             qn = rng.randrange(1, ns + 1)
